@@ -189,7 +189,11 @@ impl NodeState {
     }
 
     fn reset_node(&mut self, last_gc_version: Version) {
+        // The heartbeat record outlives the key-values: if it restarted from 0, heartbeats we
+        // have already seen would count as fresh evidence again.
+        let heartbeat = self.heartbeat;
         *self = NodeState::new(self.chitchat_id.clone(), self.listeners.clone());
+        self.heartbeat = heartbeat;
         self.max_version = 0;
         self.last_gc_version = last_gc_version;
     }
